@@ -9,7 +9,7 @@ From VL Require Import Prelude.PyDict Model.GetNBest Model.HighestAverages Model
      Model.Quota Model.QuotaDistributor.
 From VL Require Model.Convert Model.STV Proofs.STVScale_proofs.
 From VL Require Prelude.Sx Prelude.GDict Model.Bucklin Model.Cardinal Proofs.Scale2_proofs Proofs.Scale2Add_proofs Proofs.Scale2Bucklin_proofs
-     Proofs.Scale2PAV_proofs Proofs.Scale2Score_proofs.
+     Proofs.Scale2PAV_proofs Proofs.Scale2Score_proofs Proofs.Scale2MJ_proofs Proofs.Scale2Complete_proofs.
 Import ListNotations.
 
 (* plurality / every rule that ends in get_n_best of exact totals *)
@@ -374,7 +374,7 @@ Proof.
   intros k cf votes n Hk Hcf Hdef.
   apply (Scale2Score_proofs.majority_judgment_rel k Hk false cf votes _ n (Scale2Score_proofs.scale_free_cfg_ok k cf votes Hk Hcf)
            (Scale2Score_proofs.sprel_scale k votes)).
-  intros _ sub sub' j Hs. exact (Hdef sub sub' j Hs).
+  intros _ sc tied sub' j _ Hs. exact (Hdef _ sub' j Hs).
 Qed.
 
 (* ... which it is NOT on partial ballots (known finding C11-mj-default-scale): the median removal takes the same number
@@ -391,11 +391,24 @@ Proof.
   vm_compute. repeat split; reflexivity.
 Qed.
 
-(* STATED, not proved: on complete ballots (every ballot scores every candidate, positive counts, no truncation) the
-   default rule is scale-free as well.  Evidence: 60 000 random complete profiles x every number of seats x k in
-   {2, 3, 4, 7} on the implementation without a deviation, and C11_mj_default_example below.  What a proof needs is
-   in docs/C11.md (the run is a lexicographic refinement by a probe sequence into the sorted scores, and the k-fold
-   run probes the same places k times over). *)
+(* On BALANCED score dictionaries - every candidate has the same number of (corrected) scores, the counts are
+   nonnegative and the scores of a candidate pairwise different - the default rule IS scale-free.  The removal step
+   max(1, min_c min(ceil(lower - T/2), ceil(T/2 - upper))) is not homogeneous, so the k-fold run is not the k-fold of
+   the original run; the proof (Scale2MJ_proofs.v) goes through a one-score-at-a-time normal form of the loop:
+   mj_default with its fuel equals it (a block of removals never passes the first change of a median), the normal
+   form of the k-fold election follows the one of the original election (each original removal is matched by k
+   removals, k - 1 of which find every candidate still level), and it is deterministic. *)
+Theorem C11_scale_mj_default_balanced : forall (k : Z) (cf : Cardinal.score_cfg) (votes : Cardinal.sprofile) n, (0 < k)%Z ->
+  C11_score_scale_free cf votes ->
+  (forall sc, Cardinal.corrected_scores cf votes = inl sc -> exists T, Scale2MJ_proofs.Inv sc T) ->
+  Cardinal.majority_judgment false cf (map (fun bn => (fst bn, (k * snd bn)%Z)) votes) n = Cardinal.majority_judgment false cf votes n.
+Proof.
+  intros k cf votes n Hk Hcf Hbal.
+  exact (Scale2MJ_proofs.mj_default_scale k Hk cf votes n (Scale2Score_proofs.scale_free_cfg_ok k cf votes Hk Hcf) Hbal).
+Qed.
+
+(* complete ballots (every ballot scores every candidate exactly once, positive counts), min_count = 0, no truncation,
+   any unscored_value: the corrected dictionaries are balanced, hence the clause as it was stated before it was proved *)
 Definition C11_complete_ballots (votes : Cardinal.sprofile) : Prop :=
   forall b n, In (b, n) votes -> (0 < n)%Z /\ NoDup (map fst b) /\
     forall c, In c (flat_map (fun bn : Convert.sballot * Z => map fst (fst bn)) votes) -> In c (map fst b).
@@ -403,6 +416,13 @@ Definition C11_scale_mj_default_full_statement : Prop :=
   forall (k : Z) (cf : Cardinal.score_cfg) (votes : Cardinal.sprofile) n, (0 < k)%Z ->
     Cardinal.sc_min_count cf = 0%Z -> Qle_bool (Cardinal.sc_trunc cf) 0 = true -> C11_complete_ballots votes ->
     Cardinal.majority_judgment false cf (map (fun bn => (fst bn, (k * snd bn)%Z)) votes) n = Cardinal.majority_judgment false cf votes n.
+Theorem C11_scale_mj_default_full : C11_scale_mj_default_full_statement.
+Proof.
+  intros k cf votes n Hk Hmc Htr Hc. apply (C11_scale_mj_default_balanced k cf votes n Hk).
+  - split; [exact Hmc|left; exact Htr].
+  - intros sc Hsc. exists (Scale2Score_proofs.sp_total votes).
+    exact (Scale2Complete_proofs.complete_balanced cf votes sc Hmc Htr Hc Hsc).
+Qed.
 
 (* ---- non-vacuity of the second batch *)
 Example C11_ranked_pairs_kemeny_example :
@@ -458,7 +478,7 @@ Proof.
 Qed.
 
 (* all three candidates share the median 3: the default tie-break runs (several removal rounds) and gives the same
-   answer at k = 1, 2, 3, 7, for one and for two seats *)
+   answer at k = 1, 2, 3, 7, for one and for two seats; the example profile consists of complete ballots *)
 Example C11_mj_default_example :
   let cf := Cardinal.Build_score_cfg Cardinal.FMedianLow Cardinal.UNone 0 0 0 in
   let sc k := map (fun bn : Convert.sballot * Z => (fst bn, (k * snd bn)%Z)) C11_score_example in
@@ -471,6 +491,13 @@ Example C11_mj_default_example :
   Cardinal.majority_judgment false cf (sc 2%Z) 2 = inl [Cand 3%positive; Cand 2%positive] /\
   Cardinal.majority_judgment false cf (sc 7%Z) 2 = inl [Cand 3%positive; Cand 2%positive].
 Proof. vm_compute. repeat split; reflexivity. Qed.
+
+Example C11_mj_default_example_complete : C11_complete_ballots C11_score_example.
+Proof.
+  intros b n Hin. unfold C11_score_example in Hin. cbn [In] in Hin.
+  repeat (destruct Hin as [Hin|Hin]; [injection Hin as <- <-; split; [reflexivity|]; split;
+    [repeat constructor; cbn; intuition discriminate|cbn; intuition]|]). destruct Hin.
+Qed.
 
 Print Assumptions C11_scale_plurality.
 Print Assumptions C11_scale_highest_averages.
@@ -513,3 +540,5 @@ Print Assumptions C11_scale_mj_plus.
 Print Assumptions C11_scale_mj_tie_free.
 Print Assumptions C11_scale_mj_default_reduction.
 Print Assumptions C11_scale_mj_default_partial_ballots_refuted.
+Print Assumptions C11_scale_mj_default_balanced.
+Print Assumptions C11_scale_mj_default_full.
